@@ -15,16 +15,19 @@ import (
 	dto "github.com/prometheus/client_model/go"
 )
 
+type verifC04Clock struct{ now time.Time }
+
 type VerifC04Hist struct {
 	h         *histogram
-	now       time.Time
+	clock     *verifC04Clock
+	vec       *VerifC04Vec // nil for a plain histogram
 	pending   []func()
 	scheduled []time.Duration
 }
 
 func VerifC04New(opts HistogramOpts, start time.Time) *VerifC04Hist {
-	v := &VerifC04Hist{now: start}
-	opts.now = func() time.Time { return v.now }
+	v := &VerifC04Hist{clock: &verifC04Clock{now: start}}
+	opts.now = func() time.Time { return v.clock.now }
 	opts.afterFunc = func(d time.Duration, f func()) *time.Timer {
 		v.pending = append(v.pending, f)
 		v.scheduled = append(v.scheduled, d)
@@ -34,9 +37,49 @@ func VerifC04New(opts HistogramOpts, start time.Time) *VerifC04Hist {
 	return v
 }
 
-func (v *VerifC04Hist) Observe(x float64) { v.h.Observe(x) }
+// VerifC04Vec: the children of one real HistogramVec, all on one injected clock. The options
+// (with now/afterFunc) are passed on by NewHistogramVec to every child; a timer scheduled during a
+// child's Observe is attributed to that child (the driver is sequential).
+type VerifC04Vec struct {
+	vec   *HistogramVec
+	clock *verifC04Clock
+	cur   *VerifC04Hist
+}
 
-func (v *VerifC04Hist) ObserveWithExemplar(x float64, l Labels) { v.h.ObserveWithExemplar(x, l) }
+func VerifC04NewVec(opts HistogramOpts, labelNames []string, start time.Time) *VerifC04Vec {
+	v := &VerifC04Vec{clock: &verifC04Clock{now: start}}
+	opts.now = func() time.Time { return v.clock.now }
+	opts.afterFunc = func(d time.Duration, f func()) *time.Timer {
+		if v.cur != nil {
+			v.cur.pending = append(v.cur.pending, f)
+			v.cur.scheduled = append(v.cur.scheduled, d)
+		}
+		return nil
+	}
+	v.vec = NewHistogramVec(opts, labelNames)
+	return v
+}
+
+// Child creates (or finds) the child for the label values; its created timestamp is the clock now.
+func (v *VerifC04Vec) Child(lvs ...string) *VerifC04Hist {
+	return &VerifC04Hist{h: v.vec.WithLabelValues(lvs...).(*histogram), clock: v.clock, vec: v}
+}
+
+// Advance moves the clock shared by all children.
+func (v *VerifC04Vec) Advance(d time.Duration) { v.clock.now = v.clock.now.Add(d) }
+
+func (v *VerifC04Hist) enter() {
+	if v.vec != nil {
+		v.vec.cur = v
+	}
+}
+
+func (v *VerifC04Hist) Observe(x float64) { v.enter(); v.h.Observe(x) }
+
+func (v *VerifC04Hist) ObserveWithExemplar(x float64, l Labels) {
+	v.enter()
+	v.h.ObserveWithExemplar(x, l)
+}
 
 // ExemplarState: values of the native exemplars currently held, their capacity, and whether the
 // feature is enabled (read-only).
@@ -48,7 +91,7 @@ func (v *VerifC04Hist) ExemplarState() (vals []float64, capacity int, enabled bo
 }
 
 func (v *VerifC04Hist) Write(out *dto.Metric) error { return v.h.Write(out) }
-func (v *VerifC04Hist) Advance(d time.Duration)     { v.now = v.now.Add(d) }
+func (v *VerifC04Hist) Advance(d time.Duration)     { v.clock.now = v.clock.now.Add(d) }
 
 // Fire runs the oldest captured timer callback; false if none is pending.
 func (v *VerifC04Hist) Fire() bool {
